@@ -177,6 +177,14 @@ def run(ctx, prop, focus, n_hist, n_stall, stall_programs=1, n_istall=0):
             ctx.count("thread-creations-refused", sum(1 for e in events if e[1] == "thread_start_refused"))
     else:
         ctx.count("thread-fault-shim-unavailable")
+    # 1c. stop() with a full bounded queue, busy workers and a very long idle timeout
+    for i in range(max(3, n_hist // 20)):
+        if ctx.time_left() < 5:
+            break
+        prog = poolmon.gen_program_stop_full_queue(rng)
+        mode, p = ("none", 0.0) if rng.random() < 0.5 else ("yield", rng.choice([0.05, 0.2]))
+        run_one(ctx, prop, inj, prog, mode, rng.randrange(1 << 30), p=p)
+        ctx.count("stop-with-full-bounded-queue-histories")
     # 2. stall sweep: each point against small programs.  The points are the (function, line, thread role) triples
     #    that phase 1 actually saw being executed - no function name of the pool module is assumed
     learned = sorted(inj.seen)
